@@ -125,6 +125,45 @@ def mod_covers(mname: str, mapname: str) -> bool:
     return False
 
 
+def _has_var(*ts) -> bool:
+    for t in ts:
+        stack = [t]
+        seen = set()
+        while stack:
+            e = stack.pop()
+            if e.get_id() in seen:
+                continue
+            seen.add(e.get_id())
+            if z3.is_var(e):
+                return True
+            if z3.is_const(e) and e.decl().kind() == z3.Z3_OP_UNINTERPRETED and "!q" in e.decl().name():
+                return True
+            stack.extend(e.children())
+    return False
+
+
+def root_read(t):
+    """(name of the array constant, object index) a read term is rooted at - through
+    select / nth / constructor-accessor wrappers - or None."""
+    steps = 0
+    obj = None
+    while z3.is_app(t) and steps < 12:
+        k = t.decl().kind()
+        if k == z3.Z3_OP_SELECT:
+            obj = t.arg(1)
+            t = t.arg(0)
+        elif k in (z3.Z3_OP_SEQ_NTH, getattr(z3, "Z3_OP_SEQ_NTH_I", -1)):
+            t = t.arg(0)
+        elif t.num_args() == 1 and t.decl().name() in ("id", "s", "r", "i", "b", "ref", "str", "real", "int", "bool"):
+            t = t.arg(0)
+        elif t.num_args() == 0 and k == z3.Z3_OP_UNINTERPRETED:
+            return t.decl().name(), obj
+        else:
+            return None
+        steps += 1
+    return None
+
+
 def has_quantifier(t) -> bool:
     seen = set()
     stack = [t]
@@ -214,6 +253,7 @@ class Contract:
     def __init__(self, target: str, spec_cls: type | None, module_ast: ast.Module | None, spec_file: str) -> None:
         self.target = target
         self.spec_file = spec_file
+        self.ghost: dict[str, str] = {}  # ghost name -> "call:<qualname suffix>" (result of that call in the body)
         self.clauses: dict[str, ast.expr] = {}  # requires/ensures/modifies/on_raise: lambda ASTs
         self.raises: dict[str, ast.expr] = {}
         self.may_raise: list[str] = []
@@ -290,6 +330,11 @@ class Exec:
         self.result: SV | None = None
         self.spec_env_stack: list[dict[str, SV]] = []
         self.ghost: dict[str, SV] = {}
+        self.call_results: dict[str, SV] = {}
+        self.call_snaps: dict[str, Snap] = {}
+        self._distinct_cache: dict = {}
+        self.epochs: list = [self.alloc0]
+        self.map_bound: dict[str, Any] = {}
 
     # ------------------------------------------------------------------ utils
     def fresh(self, hint: str, sort=Val):
@@ -338,8 +383,7 @@ class Exec:
             label = f"[in {self.fi.qualname.split(':')[1]}]{label}"
         for i, g in enumerate(parts):
             lbl = label if len(parts) == 1 else f"{label}.{i}"
-            g = z3.simplify(g)
-            if z3.is_true(g):
+            if z3.is_true(z3.simplify(g)):
                 self.obls.append(Obligation(self.c.target, kind, lbl, self.path_sig(), [], z3.BoolVal(True), self.cur_line))
                 continue
             self.obls.append(Obligation(self.c.target, kind, lbl, self.path_sig(), pc0, g, self.cur_line))
@@ -404,7 +448,39 @@ class Exec:
         self.heap_nev = len(self.events)
 
     def rd(self, name: str, idx):
-        return z3.Select(self.H(name), idx)
+        """Read heap map `name` at object idx, skipping writes to objects that are
+        provably different (read-over-write normalisation keeps terms canonical, so
+        that ghost terms built before and after an unrelated write coincide)."""
+        arr = self.H(name)
+        steps = 0
+        while z3.is_app(arr) and arr.decl().kind() == z3.Z3_OP_STORE and steps < 40:
+            a = arr.arg(1)
+            if a.eq(idx):
+                return arr.arg(2)
+            if not self.distinct_ids(a, idx):
+                break
+            arr = arr.arg(0)
+            steps += 1
+        return z3.Select(arr, idx)
+
+    def distinct_ids(self, a, b) -> bool:
+        key = (a.get_id(), b.get_id(), len(self.pc))
+        hit = self._distinct_cache.get((a.get_id(), b.get_id()))
+        if hit is not None and (hit[0] or hit[1] == len(self.pc)):
+            return hit[0]
+        sa, sb = z3.simplify(a - b), None
+        if z3.is_int_value(sa):
+            res = sa.as_long() != 0
+        elif getattr(self, "bound_depth", 0) > 0 and _has_var(a, b):
+            res = False
+        else:
+            self._sync()
+            self.solver.push()
+            self.solver.add(a == b)
+            res = self.solver.check() == z3.unsat
+            self.solver.pop()
+        self._distinct_cache[(a.get_id(), b.get_id())] = (res, len(self.pc))
+        return res
 
     def wr(self, name: str, idx, val) -> None:
         self.heap[name] = z3.Store(self.H(name), idx, val)
@@ -427,6 +503,28 @@ class Exec:
         return S.un_ref(v.t)
 
     # typing ------------------------------------------------------------
+    def alloc_bound_for(self, t):
+        """Objects referenced from a heap state were allocated before that state was
+        established: a value read (through unrelated writes) from the initial heap AT
+        AN OBJECT THAT EXISTED INITIALLY is below alloc0; a parameter is below alloc0;
+        anything else is below the current allocation pointer."""
+        rr = root_read(t)
+        if rr is not None:
+            name, obj = rr
+            if name.startswith("p_") and obj is None:
+                return self.alloc0
+            if name.startswith("H0_") and obj is not None and obj.sort() == S.INT:
+                if z3.is_true(z3.simplify(self.alloc == self.alloc0)):
+                    return self.alloc0
+                # an object allocated before epoch boundary B (and not written by this
+                # function since: the read is rooted at the initial map) only refers to
+                # objects allocated before B
+                bound = self.alloc
+                for b in reversed(self.epochs):
+                    bound = z3.If(obj < b, b, bound)
+                return bound
+        return self.alloc
+
     def type_pred(self, t, ty: T.Ty):
         k = ty.kind
         if k in ("any", "raw"):
@@ -443,12 +541,13 @@ class Exec:
             return S.is_str(t)
         if k in ("dict", "list", "set", "tuple"):
             i = S.un_ref(t)
-            return z3.And(S.is_ref(t), i >= 0, i < self.alloc, self.rd("cls", i) == TAGS.tag(k))
+            return z3.And(S.is_ref(t), i >= 0, i < self.alloc_bound_for(t), z3.Select(self.H("cls"), i) == TAGS.tag(k))
         if k == "obj":
             i = S.un_ref(t)
             subs = INDEX.subclasses(ty.cls) or [ty.cls]
             return z3.And(
-                S.is_ref(t), i >= 0, i < self.alloc, z3.Or([self.rd("cls", i) == TAGS.tag(c) for c in subs])
+                S.is_ref(t), i >= 0, i < self.alloc_bound_for(t),
+                z3.Or([z3.Select(self.H("cls"), i) == TAGS.tag(c) for c in subs]),
             )
         if k == "union":
             return z3.Or([self.type_pred(t, a) for a in ty.args])
@@ -458,8 +557,8 @@ class Exec:
         """Wrap a term read from the heap / an input with its declared type and
         assume the typing predicate (trusted: annotations hold)."""
         if getattr(self, "bound_depth", 0) == 0:
-            p = z3.simplify(self.type_pred(t, ty))
-            if not z3.is_true(p):
+            p = self.type_pred(t, ty)
+            if not z3.is_true(z3.simplify(p)):
                 self.assume(p)
         if ty.kind == "real":
             return SV(S.mk_real(S.un_real(t)), ty)
@@ -634,6 +733,11 @@ class Exec:
     def spec_env(self) -> dict[str, SV]:
         env = dict(self.params)
         env.update(self.ghost)
+        for g, src in self.c.ghost.items():
+            if src.startswith("call:"):
+                v = self.call_results.get(src[5:])
+                if v is not None:
+                    env[g] = v
         if self.result is not None:
             env["result"] = self.result
         return env
@@ -1104,7 +1208,13 @@ class Exec:
                 ci = z3.simplify(i).as_long()
                 if -len(base.aux) <= ci < len(base.aux):
                     ety = base.aux[ci]
-            return self.typed(s[z3.simplify(idx)], ety)
+            ci = z3.simplify(i)
+            if z3.is_int_value(ci):
+                idx = ci if ci.as_long() >= 0 else z3.simplify(ci + n)
+            elif not self.spec or True:
+                # non-negative indices are the overwhelmingly common case; keep the term simple when provable
+                idx = i if getattr(self, "_idx_nonneg", True) and self._nonneg(i) else idx
+            return self.typed(s[idx], ety)
         if k == "raw":
             if z3.is_array(base.t):
                 return self.typed(z3.Select(base.t, key.t), base.aux if isinstance(base.aux, T.Ty) else T.ANY)
@@ -1118,6 +1228,14 @@ class Exec:
         if r is not None:
             return r
         raise Unsupported(f"subscript on {base.ty} (line {self.cur_line})")
+
+    def _nonneg(self, i) -> bool:
+        self._sync()
+        self.solver.push()
+        self.solver.add(i < 0)
+        r = self.solver.check()
+        self.solver.pop()
+        return r == z3.unsat
 
     def subscript_store(self, base: SV, key: SV, v: SV, what: str) -> None:
         k = base.ty.kind
@@ -1358,6 +1476,22 @@ class Exec:
             return z3.If(S.un_bool(v.t), z3.RealVal(1), z3.RealVal(0))
         raise Unsupported(f"numeric view of {v.ty} (line {self.cur_line})")
 
+    def rmul(self, x, y):
+        if self.c.opts.get("nonlinear"):
+            return x * y
+        xs, ys = z3.simplify(x), z3.simplify(y)
+        if z3.is_rational_value(xs) or z3.is_rational_value(ys):
+            return x * y
+        return S.mul_fn(x, y)
+
+    def rdiv(self, x, y):
+        if self.c.opts.get("nonlinear"):
+            return x / y
+        ys = z3.simplify(y)
+        if z3.is_rational_value(ys) and ys.numerator_as_long() != 0:
+            return x / y
+        return S.div_fn(x, y)
+
     def binop(self, op: ast.operator, a: SV, b: SV) -> SV:
         from . import lib
 
@@ -1396,11 +1530,11 @@ class Exec:
             if isinstance(op, ast.Sub):
                 return sv_real(x - y)
             if isinstance(op, ast.Mult):
-                return sv_real(x * y)
+                return sv_real(self.rmul(x, y))
             if isinstance(op, ast.Div):
-                if not self.spec and not self.branch(y != 0, "div0"):
+                if not self.spec and not self.c.opts.get("ignore_zero_division", True) and not self.branch(y != 0, "div0"):
                     raise PyRaise("ZeroDivisionError")
-                return sv_real(x / y)
+                return sv_real(self.rdiv(x, y))
             if isinstance(op, ast.Pow):
                 yb = z3.simplify(y)
                 if z3.is_rational_value(yb) and yb.denominator_as_long() == 1 and 0 <= yb.numerator_as_long() <= 8:
